@@ -108,6 +108,20 @@ def dispatchX : List String → Option (Obs × Option Obs)
             xFsObs fs qi qv (padFrameRange fs.frange 3) (Seq.invertedRange fs 3))
         else none
     some (m, sp)
+  | ["x.big", txt, qi, qv] =>
+    let txt := unhex txt
+    let (qi, qv) := (ints qi, ints qv)
+    let obs (fs : FrameSet) : Obs :=
+      [ ("valid", "1"), ("len", toString fs.len), ("start", toString fs.start), ("fin", toString fs.fin) ] ++
+        xQueries fs qi qv
+    let m : Obs := match Cpp.parse txt with
+      | .exc => excObs
+      | .invalid => [("valid", "0")]
+      | .ok fs => obs fs
+    let sp : Option Obs := match FrameSet.parse txt with
+      | .ok fs => if fs.len ≥ 1 then some (obs fs) else none
+      | .error _ => none
+    some (m, sp)
   | ["x.f2r", fr, sorted, z] =>
     let fr := ints fr
     let o : Obs := [("str", hex (framesToFrameRange fr (sorted = "1") (int! z)))]
